@@ -49,7 +49,7 @@ pub fn run(args: &[String]) {
             "leaf" => witness.layers[c1 - 1].leaves[c2 - 1] += Felt::ONE,
             "dropleaf" => { witness.layers[c1 - 1].leaves.pop(); }
             "extraleaf" => witness.layers[c1 - 1].leaves.push(Felt::from(7)),
-            "auth" => { let a = &mut witness.layers[c1 - 1].table_witness.vector.authentications; if a.is_empty() { applicable = false; } else { let k = rng.below(a.len() as u64) as usize; a[k] += Felt::ONE; } }
+            "auth" => { let a = &mut witness.layers[c1 - 1].table_witness.vector.authentications; if a.is_empty() { applicable = false; } else { let k = rng.below(a.len() as u64) as usize; a[k] += if i % 2 == 0 { Felt::ONE } else { Felt::TWO.pow(if i % 4 == 1 { 160u64 } else { 248u64 }) }; } }
             _ => {}
         }
         if !applicable { skipped += 1; continue; }
@@ -83,7 +83,8 @@ pub fn run(args: &[String]) {
         }
         if let Some(t) = trace.as_mut() {
             if i % every == 0 && panicked_none(&r) {
-                t.line(&json!({"ev":"reset","case":i,"corrupt":case["corrupt"],"kind":kind}));
+                t.line(&json!({"ev":"reset","case":i,"corrupt":case["corrupt"],"kind":kind,
+                               "ship": {"commits": hexs(proof.unsent.inner_layers.iter()), "last": hexs(proof.unsent.last_layer_coefficients.iter())}}));
                 for e in annotate_all(&events) { t.line(&e); }
                 t.line(&json!({"ev":"fri.result","ok":got_ok}));
             }
@@ -141,7 +142,8 @@ pub fn run_random(args: &[String]) {
             bad += 1;
             out.line(&json!({"ok": false, "kind": "verdict", "why": format!("honest FRI instance not accepted: verify={:?} config.validate={:?} transcripts agree={}", r.as_ref().map(|x| x.as_ref().map_err(|e| format!("{e:?}"))), valid.as_ref().map_err(|e| format!("{e:?}")), vtr.digest() == ptr.digest()), "case": desc}));
         } else if cases % every == 0 {
-            trace.line(&json!({"ev":"reset","case":cases,"desc":desc}));
+            trace.line(&json!({"ev":"reset","case":cases,"desc":desc,
+                               "ship": {"commits": hexs(proof.unsent.inner_layers.iter()), "last": hexs(proof.unsent.last_layer_coefficients.iter())}}));
             for e in annotate_all(&events) { trace.line(&e); }
             trace.line(&json!({"ev":"fri.result","ok":true}));
         }
